@@ -736,6 +736,21 @@ class Env:
         if isinstance(node, ast.Call) and isinstance(node.func, ast.Name) and node.func.id == 'all' \
                 and len(node.args) == 1 and isinstance(node.args[0], (ast.List, ast.Tuple)):
             return '(' + ' ∧ '.join(self.cond(e, selfname, selffields) for e in node.args[0].elts) + ')'
+        if isinstance(node, ast.Call) and isinstance(node.func, ast.Name) and node.func.id in ('all', 'any') \
+                and len(node.args) == 1 and isinstance(node.args[0], ast.GeneratorExp):
+            ge = node.args[0]
+            if len(ge.generators) != 1 or ge.generators[0].ifs or not isinstance(ge.generators[0].target, ast.Name) \
+                    or not isinstance(ge.generators[0].iter, (ast.List, ast.Tuple)):
+                self.err(node, 'unsupported generator expression')
+            var = ge.generators[0].target.id
+            import copy
+            parts = []
+            for e in ge.generators[0].iter.elts:
+                class Sub(ast.NodeTransformer):
+                    def visit_Name(self, n):
+                        return copy.deepcopy(e) if n.id == var else n
+                parts.append(self.cond(Sub().visit(copy.deepcopy(ge.elt)), selfname, selffields))
+            return '(' + (' ∧ ' if node.func.id == 'all' else ' ∨ ').join(parts) + ')'
         if isinstance(node, ast.Call) and isinstance(node.func, ast.Name) and node.func.id == 'isinstance':
             self.err(node, 'isinstance outside handled patterns')
         # truthiness
@@ -753,6 +768,9 @@ class Env:
         if isinstance(op, (ast.Is, ast.IsNot)):
             a, ka = self.expr(left, selfname, selffields)
             if isinstance(right, ast.Constant) and (right.value is None or right.value is False):
+                if ka == Kind.NUM:
+                    # a parameter without a None default: the model's callers always pass a number
+                    return 'False' if isinstance(op, ast.Is) else 'True'
                 if ka != Kind.OPT:
                     self.err(node, f'`is None/False` on non-optional {a}')
                 r = f'({a}.isNone = true)'
